@@ -59,6 +59,42 @@ RAW_GO = [
     "wtime  90000\tbtime 90000 winc 0 binc 0", "movetime +", "movetime", "wtime 5 btime", "",
 ]
 
+def float_inputs(r, nrand):
+    """u64 values that exercise the u64->f64 rounding (ties, carries, odd low bits) and the product rounding"""
+    s = set(range(0, 120)) | {49, 50, 51, 7499, 7500, 7501, U64, U64 - 1, 18014398509481985, U64 - 1024, U64 - 1025}
+    for k in range(0, 65):
+        for d in (-2, -1, 0, 1, 2, 7, 49, 50):
+            s.add(2 ** k + d)
+    for k in range(53, 64):
+        ulp = 2 ** (k - 52)
+        for _ in range(12):
+            base = r.randrange(2 ** k, 2 ** (k + 1)) // ulp * ulp
+            for d in (-1, 0, 1):
+                s.add(base + ulp // 2 + d)
+                s.add(base + d)
+            s.add(base | 1)
+    for _ in range(nrand):
+        s.add(r.getrandbits(64))
+        s.add(r.getrandbits(r.randrange(1, 65)))
+        s.add(r.getrandbits(r.randrange(53, 65)) | 1)
+        m = 50 * r.getrandbits(r.randrange(1, 59))
+        s.update((m - 1, m, m + 1, m + 49))
+    return sorted(w for w in s if 0 <= w <= U64)
+
+
+def check_share_model(rep, r, tier, stats):
+    """The exact binary64 model of the share (Chess/Model/Share.lean) against real doubles (Python floats are IEEE
+    binary64 with round-to-nearest-even): a disagreement is an error of the MODEL, reported as a broken tie."""
+    ws = float_inputs(r, 1500 if tier == "quick" else 60000)
+    res, _ = core.run_lean([["share %d" % w for w in ws[i:i + 2000]] for i in range(0, len(ws), 2000)])
+    got = [x[0] if x else None for chunk in res for x in chunk]
+    bad = [(w, g) for w, g in zip(ws, got) if g != str(share_of(w))]
+    stats["float_model_points"] = len(ws)
+    stats["float_model_points_not_w_div_50"] = sum(1 for w in ws if share_of(w) != w // 50)
+    for w, g in bad[:3]:
+        rep.violation("model-vs-impl", f"correspondence:C13:float share model at w={w}", f"model {g} double arithmetic {share_of(w)}", no_input=True)
+
+
 def c13_tuples(r, tier):
     brk = [0, 1, 4, 5, 6, 149, 150, 151, 154, 155, 156, 1000, 7499, 7500, 7501, 7749, 7750, 7751, 60000, 10 ** 7,
            2 ** 32, 2 ** 53 - 1, 2 ** 53, 2 ** 53 + 1, 2 ** 63, U64 - 1, U64]
@@ -90,6 +126,9 @@ def c13_tuples(r, tier):
             t["infinite"] = "1"
         out.append(t)
     out += [{"raw": x} for x in RAW_GO for _ in (0, 1)]          # each for both sides
+    # the float expression seen through the engine: with an increment of 155 ms the allotment IS the share (capped by clock-155)
+    for w in r.sample(float_inputs(r, 300), 160 if tier == "quick" else 3000):
+        out.append({"wtime": str(w), "btime": str(w), "winc": "155", "binc": "155"})
     for mt in (0, 1, 4, 5, 6, 100, U64):
         out.append({"movetime": str(mt)})
         out.append({"movetime": str(mt), "wtime": "1000", "btime": "1000", "winc": "0", "binc": "0"})
@@ -140,10 +179,8 @@ def check_c13(rep, tier):
     # model
     mcase = []
     for t, side, cmd, times, best in results:
-        own = parse_u64(t.get("wtime" if side == "w" else "btime"))
-        sh = share_of(own) if own is not None else 0
-        # the model parses the words itself (Chess/Model/Go.lean); only the float expression comes from here
-        mcase.append("gocmd %s %d %s" % (side, sh, cmd[3:]))
+        # the model parses the words itself (Chess/Model/Go.lean) and evaluates the float expression itself (Chess/Model/Share.lean)
+        mcase.append("gocmd %s %s" % (side, cmd[3:]))
     mres, _ = core.run_lean([mcase[i:i + 500] for i in range(0, len(mcase), 500)])
     model = [x[0].split(" limit")[0] if x else None for chunk in mres for x in chunk]
     shares_seen = []
@@ -179,6 +216,7 @@ def check_c13(rep, tier):
                 kinds["huge_allotment"] += 1
         if m != got:
             rep.violation("model-vs-impl", f"correspondence:C13:budget `{cmd}`", f"engine `{got}` model `{m}`", replay_ops=[cmd], no_input=True)
+    check_share_model(rep, r, tier, stats)
     # ShareOK on the values met (the hypothesis of the monotonicity theorem), with Python's double arithmetic —
     # which the engine's `info time` agreed with above on every complete clock
     shares_seen.sort()
